@@ -839,11 +839,12 @@ protected:
       }
 
       std::size_t requestEndPos;
+      std::string decodedChunkedBody;
 
       if (isChunked)
       {
         // Handle chunked encoding
-        requestEndPos = findChunkedRequestEnd(dataStr, headerEnd + 4);
+        requestEndPos = findChunkedRequestEnd(dataStr, headerEnd + 4, decodedChunkedBody);
         if (requestEndPos == CHUNKED_INVALID)
         {
           iora::core::Logger::error("HttpServer: Invalid chunked encoding for session " +
@@ -867,8 +868,11 @@ protected:
         requestEndPos = totalExpectedLength;
       }
 
-      // Extract complete request
-      std::string requestData = dataStr.substr(0, requestEndPos);
+      // Extract complete request. A chunked body is handed on DECODED (header
+      // section + the concatenated chunk data): handlers must see the body
+      // bytes the client encoded, not the transfer coding.
+      std::string requestData = isChunked ? dataStr.substr(0, headerEnd + 4) + decodedChunkedBody
+                                          : dataStr.substr(0, requestEndPos);
 
       // Remove processed data from buffer
       dataStr = dataStr.substr(requestEndPos);
@@ -1419,14 +1423,16 @@ protected:
     return have;
   }
 
-  /// \brief Find the end of a chunked request body.
+  /// \brief Find the end of a chunked request body and decode it.
   /// \return offset just past the body (after the trailer section),
   ///         std::string::npos if more data is needed, or CHUNKED_INVALID if the
   ///         coding is malformed (bad or oversize chunk size, missing CRLF).
-  std::size_t findChunkedRequestEnd(const std::string &data, std::size_t bodyStart) const
+  std::size_t findChunkedRequestEnd(const std::string &data, std::size_t bodyStart,
+                                    std::string &decoded) const
   {
     static constexpr std::size_t MAX_CHUNK_LINE = 4096;
     std::size_t pos = bodyStart;
+    decoded.clear();
 
     for (;;)
     {
@@ -1492,7 +1498,8 @@ protected:
         }
       }
 
-      if (chunkSize > SessionInfo::MAX_BODY_SIZE)
+      if (chunkSize > SessionInfo::MAX_BODY_SIZE ||
+          decoded.size() + chunkSize > SessionInfo::MAX_BODY_SIZE)
       {
         return CHUNKED_INVALID; // also keeps the arithmetic below overflow-free
       }
@@ -1504,6 +1511,7 @@ protected:
       {
         return CHUNKED_INVALID; // chunk data not followed by CRLF
       }
+      decoded.append(data, pos, chunkSize);
       pos += chunkSize + 2;
     }
   }
